@@ -50,7 +50,7 @@ class Spec:
 
 
 def core_q(name, defines, L=12, budget=300, tiers=('quick', 'thorough'), unwind=None, extra_defs=(), desc=''):
-    d = ['L=%d' % L, 'VF_FREE_NOOP', 'VF_CAP=%d' % (L + 8), 'VJ_DEPTH=1'] + list(defines) + list(extra_defs)
+    d = ['L=%d' % L, 'VF_FREE_NOOP', 'VF_CAP=%d' % (L + 8)] + list(defines) + list(extra_defs)
     return Query(name, 'core_verify.c', CORE_UNITS, defines=d, unwind=unwind or (L + 3), checks='verdict',
                  budget=budget, tiers=tiers, desc=desc,
                  bounds={'L': L, 'VJ_MAXM': 4, 'VJ_SLEN': 8, 'PV_MACLEN': 3, 'unwind': unwind or (L + 3)})
@@ -66,7 +66,7 @@ BUILDER_FUNCS = ['jwt_builder_new', 'jwt_builder_setkey', 'jwt_builder_setcb', '
 
 
 def builder_q(name, defines, budget=600, tiers=('quick', 'thorough')):
-    d = ['VF_FREE_NOOP', 'VF_CAP=24', 'VJ_DEPTH=1', 'VJ_MAXM=5', 'VJ_DUMPLEN=3'] + list(defines)
+    d = ['VF_FREE_NOOP', 'VF_CAP=24', 'VJ_MAXM=5', 'VJ_DUMPLEN=3', 'PV_COPY_INPUT'] + list(defines)
     return Query(name, 'core_builder.c', BUILDER_UNITS, defines=d, unwind=26, checks='verdict', budget=budget, tiers=tiers,
                  bounds={'VJ_MAXM': 5, 'VJ_DUMPLEN': 3, 'PV_MACLEN': 3, 'config history': 'enable_iat?, time_offset(nbf)?, '
                          'time_offset(exp)?, header typ?, header alg?, claim iat?, claim exp?, setkey, setcb', 'clock': '[0,2^61]'})
@@ -175,7 +175,7 @@ class C10(Spec):
 
 
 def tworun_q(name, defines, L=12, budget=600, tiers=('quick', 'thorough'), mac=3):
-    d = ['L=%d' % L, 'VF_FREE_NOOP', 'VF_CAP=%d' % (L + 8), 'PV_TAPE', 'PV_MACLEN=%d' % mac, 'VJ_DEPTH=1'] + list(defines)
+    d = ['L=%d' % L, 'VF_FREE_NOOP', 'VF_CAP=%d' % (L + 8), 'PV_TAPE', 'PV_MACLEN=%d' % mac] + list(defines)
     return Query(name, 'core_tworun.c', CORE_UNITS, defines=d, unwind=L + 3, checks='verdict', budget=budget, tiers=tiers,
                  bounds={'L': L, 'VJ_MAXM': 4, 'VJ_SLEN': 8, 'PV_MACLEN': 3, 'runs compared': 2})
 
@@ -248,11 +248,69 @@ class C15(Spec):
             for tg, tn in enumerate(('bhdr', 'bclaim', 'jhdr', 'jclaim')):
                 qs.append(Query('C15.map.%s.%s' % (on, tn), 'typedmap.c', MAP_UNITS,
                                 models=['alloc', 'jansson_model', 'env', 'provider_stub'],
-                                defines=['VF_FREE_NOOP', 'VJ_DEPTH=1', 'VJ_MAXM=4', 'ONLY_OP=%d' % op, 'ONLY_TARGET=%d' % tg],
+                                defines=['VF_FREE_NOOP', 'VJ_MAXM=4', 'ONLY_OP=%d' % op, 'ONLY_TARGET=%d' % tg],
                                 unwind=12, budget=600,
                                 bounds={'pre-state': 'any subset of 3 names with values of any JSON type', 'operations': 1,
                                         'names': 'NULL, empty, two colliding, one new', 'VJ_MAXM': 4}))
         return qs
 
 
-PROPS.update({'C15': C15(), 'C12': C12(), 'C10': C10(), 'C11': C11(), 'C13': C13(), 'C19': C19(), 'C09': C09(), 'C04': C04(), 'C02': C02(), 'C03': C03(), 'C06': C06(), 'C14': C14()})
+RING_UNITS = ['libjwt/jwks.c', 'libjwt/jwt.c', 'libjwt/jwt-memory.c', 'libjwt/base64.c']
+RING_FUNCS = ['jwks_create', 'jwks_load', 'jwks_load_strn', 'jwks_create_strn', 'jwks_load_fromfile', 'jwks_load_fromfp',
+              '__jwks_load_strn', 'jwks_process', 'jwk_process_one', 'jwk_process_values', 'jwk_key_op_j', 'process_octet',
+              'jwks_new', 'jwks_item_add', 'jwks_item_get', 'jwks_item_count', 'jwks_find_bykid', 'jwks_item_free',
+              'jwks_item_free_bad', 'jwks_item_free_all', 'jwks_error_any', 'jwks_free', '__item_free', 'list_add_tail',
+              'list_del', 'jwt_base64uri_decode', 'base64_decode', 'jwt_strcmp', 'jwt_str_alg']
+
+
+def ring_q(name, defines, unwind=9, budget=600, tiers=('quick', 'thorough'), checks='memsafe-noconv', bounds=None):
+    d = ['VJ_MAXM=7', 'VJ_SLEN=6', 'VJ_KLEN=7', 'VF_CAP=16', 'VJ_CHECK_DEAD'] + list(defines)
+    return Query(name, 'keyring.c', RING_UNITS, defines=d, unwind=unwind, checks=checks, budget=budget, tiers=tiers,
+                 bounds=bounds or {})
+
+
+LIST_LOOPS = ['jwks_item_count', 'jwks_item_get', 'jwks_find_bykid', 'jwks_item_free', 'jwks_item_free_bad',
+              'jwks_error_any', 'jwks_item_free_all']
+
+
+class C16(Spec):
+    functions = RING_FUNCS
+
+    def queries(self, tier, bld):
+        names = ['get', 'count', 'find', 'free_i', 'free_bad', 'error_any', 'free_all', 'jwks_free']
+        qs = []
+        for n in ((0, 1, 2, 3) if tier == 'quick' else (0, 1, 2, 3, 4)):
+            for k, nm in enumerate(names):
+                q = ring_q('C16.list.n%d.%s' % (n, nm), ['SIDE_LIST', 'NITEMS=%d' % n, 'ONLY_OP=%d' % k],
+                           bounds={'keyring': 'the list of exactly %d items built by the real list_add_tail; error flags, kids '
+                                   '(NULL, a, b, ab: duplicates possible), ownership (oct bytes / provider / none) symbolic' % n,
+                                   'operations': '1 (inductive step; the full list representation invariant is re-established)'})
+                q.unwindset = {f + '.0': n + 2 for f in LIST_LOOPS}
+                qs.append(q)
+        return qs
+
+
+class C07(Spec):
+    functions = RING_FUNCS
+
+    def queries(self, tier, bld):
+        routes = ['create', 'load', 'load_strn', 'fromfile', 'fromfp', 'create_strn']
+        shapes = ['notjson', 'nonobject', 'single', 'keys_nonarray', 'keys0', 'keys1', 'keys2']
+        b = {'document': 'not JSON | any non-object top level | single JWK object | keys of any non-array type | keys array of 0,1,2 elements of any type',
+             'JWK members': 'kty,k,alg,use,key_ops,kid each absent or of any JSON type; strings <= 6 arbitrary bytes'}
+        qs = []
+        for sh, sn in enumerate(shapes):
+            for rt, rn in enumerate(routes):
+                for pre in (0, 1):
+                    if pre and rn != 'load':
+                        continue
+                    if tier == 'quick' and rn in ('create_strn', 'load_strn', 'fromfp') and sn not in ('keys1', 'notjson'):
+                        continue
+                    q = ring_q('C07.shape.%s.%s%s' % (sn, rn, '.pre' if pre else ''),
+                               ['SIDE_LOAD', 'SHAPE=%d' % sh, 'ROUTE=%d' % rt, 'PRE=%d' % pre], bounds=b)
+                    q.unwindset = {f + '.0': 5 for f in LIST_LOOPS}
+                    qs.append(q)
+        return qs
+
+
+PROPS.update({'C07': C07(), 'C16': C16(), 'C15': C15(), 'C12': C12(), 'C10': C10(), 'C11': C11(), 'C13': C13(), 'C19': C19(), 'C09': C09(), 'C04': C04(), 'C02': C02(), 'C03': C03(), 'C06': C06(), 'C14': C14()})
